@@ -172,6 +172,9 @@ impl ToZinc for Time {
 
 impl ToZinc for DateTime {
     fn to_zinc<W: std::io::Write>(&self, writer: &mut W) -> Result<()> {
+        if !self.has_local_time() {
+            return Err(Error::from("DateTime local time is out of range."));
+        }
         if self.is_utc() {
             write_str(writer, &self.to_rfc3339_opts(SecondsFormat::AutoSi, true))?;
         } else {
